@@ -1,0 +1,9 @@
+//go:build !verif
+
+// Package verifhook provides crash-point hooks for the verification harness in /verif.
+// Without the build tag "verif" every hook is an empty function that the compiler
+// inlines away.
+package verifhook
+
+// At marks a point between two file-system effects. It does nothing in normal builds.
+func At(name string) {}
